@@ -23,15 +23,23 @@ variable {K : Type} [Add K] [Zero K] [Mul K] [Sub K] [Div K] [NatCast K] [LE K] 
 /-- the straight line through `(x0, v0)` and `(x1, v1)` at `x` -/
 def lerp (x0 x1 v0 v1 x : K) : K := v0 + (v1 - v0) * (x - x0) / (x1 - x0)
 
-/-- One axis of the tensor-product interpolant.  `knots` are the remaining knots, `vals` the
-remaining values (blocks of `m` samples per knot, interpolated further by `rec`); `first` tells
-whether the current cell is the first one; `ext` = extrapolate outside the knots
-(`fill_value=None`), otherwise a point outside yields `none` (the fill value). -/
+/-- `x` is on the inner side of the cell end `a` (the other end being `b`): the knots may ascend
+or descend (SciPy accepts strictly descending axes and flips them internally). -/
+def inLo (a b x : K) : Bool := if a ≤ b then decide (a ≤ x) else decide (x ≤ a)
+
+/-- `x` is on the inner side of the cell end `b` -/
+def inHi (a b x : K) : Bool := if a ≤ b then decide (x ≤ b) else decide (b ≤ x)
+
+/-- One axis of the tensor-product interpolant.  `knots` are the remaining knots (strictly
+monotone, ascending or descending), `vals` the remaining values (blocks of `m` samples per knot,
+interpolated further by `rec`); `first` tells whether the current cell is the first one; `ext` =
+extrapolate outside the knots (`fill_value=None`), otherwise a point outside yields `none` (the
+fill value). -/
 def interpAxis (ext : Bool) (m : Nat) (rec : List K → Option K) :
     Bool → List K → List K → K → Option K
   | first, a :: b :: knots, vals, x =>
     let last := knots.isEmpty
-    if ((ext && first) || decide (a ≤ x)) && ((ext && last) || decide (x ≤ b)) then
+    if ((ext && first) || inLo a b x) && ((ext && last) || inHi a b x) then
       match rec (vals.take m), rec ((vals.drop m).take m) with
       | some va, some vb => some (lerp a b va vb x)
       | _, _ => none
@@ -75,12 +83,14 @@ def linearSeparatedOld (ext : Bool) (sep : List (List K)) (vals : List K) (p : L
 
 /-! ### nearest neighbour on separated grids -/
 
-/-- index of the knot nearest to `x` (ties to the lower index, as SciPy's `yi <= .5`);
-`none` outside the knots -/
+/-- index of the knot nearest to `x`; `none` outside the knots.  Ties go to the knot with the
+*smaller coordinate*: SciPy's `yi <= .5` picks the lower index on ascending axes, and descending
+axes are flipped before that rule is applied. -/
 def nearestAxis : List K → K → Option Nat
   | a :: b :: knots, x =>
-    if decide (a ≤ x) && decide (x ≤ b) then
-      (if (x - a) + (x - a) ≤ b - a then some 0 else some 1)
+    if inLo a b x && inHi a b x then
+      (if a ≤ b then (if (x - a) + (x - a) ≤ b - a then some 0 else some 1)
+       else (if (x - b) + (x - b) ≤ a - b then some 1 else some 0))
     else (nearestAxis (b :: knots) x).map (· + 1)
   | _, _ => none
 
